@@ -21,6 +21,14 @@ def menu():
             _xofields = {"a": xo.Int64, "v": xo.Float64[3]}
             _rename = {"a": "alpha"}
 
+        class C19Leaf(xo.HybridClass):  # three levels, renamed fields on the two lower ones
+            _xofields = {"q_xo": xo.Int64, "w": xo.Float64[2]}
+            _rename = {"q_xo": "q"}
+
+        class C19Mid(xo.HybridClass):
+            _xofields = {"leaf_xo": C19Leaf, "z": xo.Int64}
+            _rename = {"leaf_xo": "leaf"}
+
         class C19InnerS(xo.HybridClass):  # every field has a computable default
             _xofields = {"a": xo.Int64, "v": xo.Float64[3]}
 
@@ -37,6 +45,7 @@ def menu():
             hy=dict(ftype=C19Inner, defaults=[("none", {}, None)], values=[("diff", dict(a=3, b=[1.0, 2.0])), ("empty", dict(a=0, b=[]))]),
             # nested object of a class with a renamed field, given as an object (the dictionary of the holder then holds python names)
             hr=dict(ftype=C19InnerR, defaults=[("none", {}, None)], values=[("diff", lambda: C19InnerR(alpha=3, v=[4.0, 5.0, 6.0])), ("zero", lambda: C19InnerR(alpha=0, v=[0.0, 0.0, 0.0]))]),
+            h3=dict(ftype=C19Mid, defaults=[("none", {}, None)], values=[("diff", lambda: C19Mid(leaf=C19Leaf(q=7, w=[1.0, 2.0]), z=3)), ("zero", lambda: C19Mid(leaf=C19Leaf(q=0, w=[0.0, 0.0]), z=0))]),
             # a nested class whose holder declares ITS OWN default for the nested object (two levels of defaults)
             hs=dict(ftype=C19InnerS, defaults=[("none", {}, None), ("default", dict(default={"a": 5, "v": [1.0, 2.0, 3.0]}), dict(a=5, v=[1.0, 2.0, 3.0]))],
                     values=[("diff", dict(a=3, v=[4.0, 5.0, 6.0])), ("inner-class-defaults", dict(a=0, v=[0.0, 0.0, 0.0])), ("half", dict(a=5, v=[0.0, 0.0, 0.0]))]),
@@ -55,7 +64,7 @@ def describe(tier):
         "declared default is absent from the dictionary iff its value equals that default; (a') class families {base, derived class declaring the field again "
         "with another default, derived class inheriting the declaration} serialised in all 6 orders: each class elides exactly its own default and round-trips; then a class is defined from {'pre': Int64, **Base._xofields}: dictionaries made before still rebuild equal objects and the new class round-trips. (b) every reference-free type of the universe in which every "
         "array at any depth is one-dimensional x 3 value alphabets: T(x._to_json()) equals x.",
-        bounds=dict(field_kinds=["sc", "fl", "st", "sa", "da", "hy", "hs", "hr"], json_types=len(json_types(tier))),
+        bounds=dict(field_kinds=["sc", "fl", "st", "sa", "da", "hy", "hs", "hr", "h3"], json_types=len(json_types(tier))),
         assumptions=["N-D arrays are outside the property (documented as unsupported by _to_json)"],
         must_fire=["to_dict", "from_dict", "to_json"],
     )
@@ -88,7 +97,7 @@ def shards(tier, seed):
     common.quiet()
     fv = field_variants()
     out = [("hyb", i) for i in range(len(fv))]
-    out += [("family", i) for i in range(len(fv)) if fv[i][3] is not None and fv[i][0] not in ("hy", "hs", "hr")]
+    out += [("family", i) for i in range(len(fv)) if fv[i][3] is not None and fv[i][0] not in ("hy", "hs", "hr", "h3")]
     out += [("json", c) for c in cons.chunk(json_types(tier), 16)]
     return out[seed % len(out):] + out[: seed % len(out)]
 
@@ -117,6 +126,9 @@ def read_hybrid(h, fields):
         elif kind == "hr":
             v = dict(a=int(pv.alpha), v=np.asarray(pv.v).tolist())
             v2 = dict(a=int(xv.a), v=[float(xv.v[i]) for i in range(3)])
+        elif kind == "h3":
+            v = dict(z=int(pv.z), q=int(pv.leaf.q), w=np.asarray(pv.leaf.w).tolist())
+            v2 = dict(z=int(xv.z), q=int(xv.leaf_xo.q_xo), w=[float(xv.leaf_xo.w[i]) for i in range(2)])
         elif kind == "hs":
             v = dict(a=int(pv.a), v=np.asarray(pv.v).tolist())
             v2 = dict(a=int(xv.a), v=[float(xv.v[i]) for i in range(3)])
@@ -188,7 +200,7 @@ def run_hybrid(first, tier, res):
                     continue
                 # default elision
                 for (pyname, xoname, k), (klab, dlab, dkw, dv), (vlab, v) in zip(fields, combo, choice):
-                    if dv is None or k in ("hy", "hs", "hr"):
+                    if dv is None or k in ("hy", "hs", "hr", "h3"):
                         continue  # nested objects are always written out
                     res.oracles["elision"] += 1
                     equal = veq(v, dv)
@@ -248,7 +260,7 @@ def run_family(first, tier, res):
     import xobjects as xo
 
     k, lab, kw, dv = field_variants()[first]
-    if dv is None or k in ("hy", "hs", "hr"):
+    if dv is None or k in ("hy", "hs", "hr", "h3"):
         return  # families are about scalar / string / array defaults
     m = menu()[k]
     other = dict(m["values"])["diff"]
